@@ -291,3 +291,86 @@ Definition s_PrecompiledSmc : schema := SSeq [STag 8 0xb0; SUint 64].
 Definition s_CatchainConfig : schema :=
   SAlt [(8%nat, 0xc1, SSeq [SUint 32; SUint 32; SUint 32; SUint 32]);
         (8%nat, 0xc2, SSeq [SUint 7; SBool; SUint 32; SUint 32; SUint 32; SUint 32])].
+
+(** *** configuration parameters (block.tlb: ConfigParam n) *)
+(* _ config_addr:bits256 = ConfigParam 0; elector_addr = 1; minter_addr = 2; fee_collector_addr = 3; dns_root_addr = 4 *)
+Definition s_ConfigParamAddr : schema := SSeq [SBits 256].
+(* burning_config#01 blackhole_addr:(Maybe bits256) fee_burn_num:# fee_burn_denom:# = BurningConfig; _ BurningConfig = ConfigParam 5 *)
+Definition s_BurningConfig : schema := SSeq [STag 8 1; SMaybe (SBits 256); SUint 32; SUint 32].
+Definition s_ConfigParam5 : schema := SSeq [s_BurningConfig].
+(* _ mint_new_price:Grams mint_add_price:Grams = ConfigParam 6 *)
+Definition s_ConfigParam6 : schema := SSeq [s_Grams; s_Grams].
+(* _ to_mint:ExtraCurrencyCollection = ConfigParam 7;  _ GlobalVersion = ConfigParam 8 *)
+Definition s_ConfigParam7 : schema := SSeq [s_ExtraCurrencyCollection].
+Definition s_ConfigParam8 : schema := SSeq [s_GlobalVersion].
+(* cfg_vote_cfg#36 min_tot_rounds:uint8 max_tot_rounds:uint8 min_wins:uint8 max_losses:uint8
+     min_store_sec:uint32 max_store_sec:uint32 bit_price:uint32 cell_price:uint32 = ConfigProposalSetup *)
+Definition s_ConfigProposalSetup : schema :=
+  SSeq [STag 8 0x36; SUint 8; SUint 8; SUint 8; SUint 8; SUint 32; SUint 32; SUint 32; SUint 32].
+(* cfg_vote_setup#91 normal_params:^ConfigProposalSetup critical_params:^ConfigProposalSetup = ConfigVotingSetup *)
+Definition s_ConfigVotingSetup : schema := SSeq [STag 8 0x91; SRef s_ConfigProposalSetup; SRef s_ConfigProposalSetup].
+Definition s_ConfigParam11 : schema := SSeq [s_ConfigVotingSetup].
+(* cfg_proposal#f3 param_id:int32 param_value:(Maybe ^Cell) if_hash_equal:(Maybe uint256) = ConfigProposal
+   (the library holds param_value as an uninterpreted cell content behind the reference) *)
+Definition s_ConfigProposal : schema := SSeq [STag 8 0xf3; SInt 32; SMaybe (SRef SAny); SMaybe (SUint 256)].
+Definition s_ConfigParam13 : schema := SSeq [s_ComplaintPricing].
+Definition s_ConfigParam14 : schema := SSeq [s_BlockCreateFees].
+(* _ validators_elected_for:uint32 elections_start_before:uint32 elections_end_before:uint32 stake_held_for:uint32 = ConfigParam 15 *)
+Definition s_ConfigParam15 : schema := SSeq [SUint 32; SUint 32; SUint 32; SUint 32].
+(* _ max_validators:(## 16) max_main_validators:(## 16) min_validators:(## 16) = ConfigParam 16 *)
+Definition s_ConfigParam16 : schema := SSeq [SUint 16; SUint 16; SUint 16].
+(* _ min_stake:Grams max_stake:Grams min_total_stake:Grams max_stake_factor:uint32 = ConfigParam 17 *)
+Definition s_ConfigParam17 : schema := SSeq [s_Grams; s_Grams; s_Grams; SUint 32].
+(* config_mc_block_limits#_ BlockLimits = ConfigParam 22; config_block_limits = 23;
+   config_mc_fwd_prices#_ MsgForwardPrices = ConfigParam 24; config_fwd_prices = 25; _ CatchainConfig = ConfigParam 28 *)
+Definition s_ConfigParamBlockLimits : schema := SSeq [s_BlockLimits].
+Definition s_ConfigParamFwdPrices : schema := SSeq [s_MsgForwardPrices].
+Definition s_ConfigParam28 : schema := SSeq [s_CatchainConfig].
+(* consensus_config#d6 round_candidates:# next_candidate_delay_ms:uint32 consensus_timeout_ms:uint32
+     fast_attempts:uint32 attempt_duration:uint32 catchain_max_deps:uint32 max_block_bytes:uint32 max_collated_bytes:uint32
+   consensus_config_new#d7 flags:(## 7) new_catchain_ids:Bool round_candidates:(## 8) + the same seven uint32
+   consensus_config_v3#d8 ... proto_version:uint16
+   consensus_config_v4#d9 ... proto_version:uint16 catchain_max_blocks_coeff:uint32 = ConsensusConfig *)
+Definition s_cc7 : list schema := [SUint 32; SUint 32; SUint 32; SUint 32; SUint 32; SUint 32; SUint 32].
+Definition s_ConsensusConfig : schema :=
+  SAlt [(8%nat, 0xd6, SSeq (SUint 32 :: s_cc7));
+        (8%nat, 0xd7, SSeq ([SUint 7; SBool; SUint 8] ++ s_cc7));
+        (8%nat, 0xd8, SSeq ([SUint 7; SBool; SUint 8] ++ s_cc7 ++ [SUint 16]));
+        (8%nat, 0xd9, SSeq ([SUint 7; SBool; SUint 8] ++ s_cc7 ++ [SUint 16; SUint 32]))].
+Definition s_ConfigParam29 : schema := SSeq [s_ConsensusConfig].
+(* misbehaviour_punishment_config_v1#01 default_flat_fine:Grams default_proportional_fine:uint32
+     severity_flat_mult:uint16 severity_proportional_mult:uint16 unpunishable_interval:uint16 long_interval:uint16
+     long_flat_mult:uint16 long_proportional_mult:uint16 medium_interval:uint16 medium_flat_mult:uint16
+     medium_proportional_mult:uint16 = MisbehaviourPunishmentConfig; ConfigParam 40 *)
+Definition s_MisbehaviourPunishmentConfig : schema :=
+  SSeq [STag 8 1; s_Grams; SUint 32; SUint 16; SUint 16; SUint 16; SUint 16; SUint 16; SUint 16; SUint 16; SUint 16; SUint 16].
+Definition s_ConfigParam40 : schema := SSeq [s_MisbehaviourPunishmentConfig].
+(* size_limits_config#01 max_msg_bits:uint32 max_msg_cells:uint32 max_library_cells:uint32 max_vm_data_depth:uint16
+     max_ext_msg_size:uint32 max_ext_msg_depth:uint16
+   size_limits_config_v2#02 ... max_acc_state_cells:uint32 max_acc_state_bits:uint32 = SizeLimitsConfig; ConfigParam 43 *)
+Definition s_SizeLimitsConfig : schema :=
+  SAlt [(8%nat, 1, SSeq [SUint 32; SUint 32; SUint 32; SUint 16; SUint 32; SUint 16]);
+        (8%nat, 2, SSeq [SUint 32; SUint 32; SUint 32; SUint 16; SUint 32; SUint 16; SUint 32; SUint 32])].
+Definition s_ConfigParam43 : schema := SSeq [s_SizeLimitsConfig].
+(* jetton_bridge_prices#_ bridge_burn_fee:Coins bridge_mint_fee:Coins wallet_min_tons_for_storage:Coins
+     wallet_gas_consumption:Coins minter_min_tons_for_storage:Coins discover_gas_consumption:Coins = JettonBridgePrices *)
+Definition s_JettonBridgePrices : schema := SSeq [s_Grams; s_Grams; s_Grams; s_Grams; s_Grams; s_Grams].
+(* oracle_bridge_params#_ bridge_address:bits256 oracle_mutlisig_address:bits256 oracles:(HashmapE 256 uint256)
+     external_chain_address:bits256 = OracleBridgeParams *)
+Definition s_OracleBridgeParams : schema := SSeq [SBits 256; SBits 256; SDictE 256; SBits 256].
+(* precompiled_contracts_config#c0 list:(HashmapE 256 PrecompiledSmc) = PrecompiledContractsConfig *)
+Definition s_PrecompiledContractsConfig : schema := SSeq [STag 8 0xc0; SDictE 256].
+(* suspended_address_list#00 addresses:(HashmapE 288 Unit) suspended_until:uint32 = SuspendedAddressList *)
+Definition s_SuspendedAddressList : schema := SSeq [STag 8 0; SDictE 288; SUint 32].
+(* _ messages:(HashmapE 64 EnqueuedMsg) count:uint48 = AccountDispatchQueue *)
+Definition s_AccountDispatchQueue : schema := SSeq [SDictE 64; SUint 48].
+
+(** *** the fixed part of block_info (after the #9bc7a987 tag):
+    version:uint32 not_master:(## 1) after_merge:(## 1) before_split:(## 1) after_split:(## 1)
+    want_split:Bool want_merge:Bool key_block:Bool vert_seqno_incr:(## 1) flags:(## 8) seq_no:# vert_seq_no:#
+    shard:ShardIdent gen_utime:uint32 start_lt:uint64 end_lt:uint64 gen_validator_list_hash_short:uint32
+    gen_catchain_seqno:uint32 min_ref_mc_seqno:uint32 prev_key_block_seqno:uint32
+    (the library holds the five (## 1) flags as bools: same bit) *)
+Definition s_BlockInfoPart : schema :=
+  SSeq [SUint 32; SBool; SBool; SBool; SBool; SBool; SBool; SBool; SBool; SUint 8; SUint 32; SUint 32;
+        s_ShardIdent; SUint 32; SUint 64; SUint 64; SUint 32; SUint 32; SUint 32; SUint 32].
